@@ -496,6 +496,11 @@ func unpackDataNsec(msg []byte, off int) ([]uint16, int, error) {
 		if off+length > len(msg) {
 			return nsec, len(msg), &Error{err: "overflowing NSEC(3) block in type bitmap"}
 		}
+		if msg[off+length-1] == 0 {
+			// RFC 4034: Trailing zero octets in the bitmap MUST be omitted; a block
+			// that is all zero has no types present and MUST NOT be included.
+			return nsec, len(msg), &Error{err: "trailing zero octet in NSEC(3) block in type bitmap"}
+		}
 
 		// Walk the bytes in the window and extract the type bits
 		for j, b := range msg[off : off+length] {
